@@ -608,6 +608,9 @@ class Fn:
                 aty = self.local_ty(cs.args[0]["place"]["local"])["s"]
             v = "Some" if aty.startswith("std::option::Option") else "Ok"
             return self._op_origins(cs.args[0], (("variant", v), ("field", 0)) + tuple(steps[2:]), visiting)
+        if p == "std::ops::Try::branch" and cs.args and len(steps) >= 4 and steps[:4] == (("variant", "Break"), ("field", 0), ("variant", "Err"), ("field", 0)):
+            # the residual of `x?` carries x's Err payload
+            return self._op_origins(cs.args[0], (("variant", "Err"), ("field", 0)) + tuple(steps[4:]), visiting)
         if getattr(self, "_identity_mode", False) and not cs.dest["proj"] and not self.local_ty(cs.dest["local"])["s"].startswith(("&", "*")) \
                 and (cs.name in ("clone", "to_owned", "to_vec", "to_string", "cloned", "copied", "clone_from") or
                      (p not in PASS_THROUGH and self.prog.return_summary(cs) is not None)):
